@@ -687,7 +687,14 @@ theorem dataOk_triples [DecidableEq ν] [Zero ν] (rows : List (List ν)) (m : N
     have := triplesFrom_mem rows m hw 0 x hx
     simp; omega
   · intro i _ j _
-    rw [entriesAt_triples]
+    have h : (List.filter (fun t => t.2.1 == j) (List.filter (fun t => t.1 == i) (triplesFrom 0 rows))).map (·.2.2) =
+        entriesAt (triplesFrom 0 rows) i j := by
+      unfold entriesAt
+      rw [List.filter_filter]
+      congr 2
+      funext t
+      exact Bool.and_comm _ _
+    rw [h, entriesAt_triples]
     cases cellAt rows i j <;> simp [cellEntries]
 
 theorem fieldIs_self [DecidableEq ν] (d : J ν) (k : String) (v : J ν) (h : d.get? k = some v) :
